@@ -48,7 +48,7 @@ def flows_to_vec(b, c):
 
 def rule_hash(ctx, rep):
     r = rep.rule("R-C06-hash", "no iteration over a std HashMap/HashSet feeds an order-sensitive consumer (Vec/String construction, first-match, output)",
-                 floor=7, floor_what="hash iteration sites")
+                 floor=4, floor_what="hash iteration sites")
     for b in sorted(ctx.prog.bodies.values(), key=lambda x: x.id):
         if b.f["crate"] not in PRODUCT:
             continue
